@@ -206,17 +206,25 @@ def _pack(ctx):
 def _hyp_settings(n, steps=None):
     from hypothesis import settings, HealthCheck, Phase, Verbosity
     kw = dict(max_examples=n, database=None, deadline=None, derandomize=False, report_multiple_bugs=False,
-              suppress_health_check=list(HealthCheck), phases=[Phase.generate, Phase.target, Phase.shrink],
+              suppress_health_check=list(HealthCheck), phases=[Phase.generate, Phase.shrink],
               verbosity=Verbosity.quiet, print_blob=False)
     if steps is not None:
         kw["stateful_step_count"] = steps
     return settings(**kw)
 
 
+def limit_shrinking(ctx):
+    """Hypothesis caps shrinking at 300 s; the cap is a module constant.  A lower cap only makes the reported
+    reproduction less minimal (the verdict is reached before shrinking starts), and keeps a failing run short."""
+    import hypothesis.internal.conjecture.engine as eng
+    eng.MAX_SHRINKING_SECONDS = int(os.environ.get("TWV_SHRINK_SECONDS", "60" if ctx.thorough else "12"))
+
+
 def _run_hyp(sub, ctx, budget):
     from hypothesis import given, seed
     strat = sub.strategy(ctx)
     box = {}
+    limit_shrinking(ctx)
 
     @seed(derive_seed(ctx.seed, ctx.prop, sub.name, ctx.shard))
     @_hyp_settings(budget)
@@ -252,6 +260,7 @@ def _run_machine(sub, ctx, budget):
     box = {}
     machine._twv_box = box
     steps = sub.steps[1] if ctx.thorough else sub.steps[0]
+    limit_shrinking(ctx)
     try:
         run_state_machine_as_test(seed(derive_seed(ctx.seed, ctx.prop, sub.name, ctx.shard))(machine),
                                   settings=_hyp_settings(budget, steps))
